@@ -25,7 +25,19 @@ def floatCls : Classifier := fun r p =>
 
 structure DSt where
   stores : List Store := []
+  obs : List (Nat × String × String) := []      -- (store, kind always|state, state name)
   w : World := ⟨fun _ => Store.fresh 0 0 0 0 0 1, fun _ => {}⟩
+
+def stateOf : String → MState
+  | "conserving" => .conserving | "starving" => .starving | "feasting" => .feasting | "dormant" => .dormant
+  | _ => .normal
+
+/-- the scripted stateless observers of the harness: raise on every change / on changes to one state -/
+def obsOf (l : List (Nat × String × String)) (j : Nat) : Obs := fun st =>
+  match l.find? (fun e => e.1 == j) with
+  | some (_, "always", _) => some 1
+  | some (_, "state", nm) => if st = stateOf nm then some 1 else none
+  | _ => none
 
 def curOf : String → Cur
   | "gtp" => .gtp | "nadh" => .nadh | _ => .atp
@@ -60,20 +72,21 @@ def step (d : DSt) (toks : List String) : DSt × String :=
     let s := Store.fresh (natD b) (natD g) (natD n) (natD md) 1 10
     let id := d.stores.length
     let stores := d.stores ++ [s]
-    ({ stores := stores, w := ⟨upd1 d.w.st id s, d.w.locs⟩ }, s!"ok {id}")
+    ({ d with stores := stores, w := ⟨upd1 d.w.st id s, d.w.locs⟩ }, s!"ok {id}")
   | ["setatp", i, v] =>
     let j := natD i
     ({ d with w := ⟨upd1 d.w.st j { d.w.st j with atp := intD v }, d.w.locs⟩ }, "ok")
   | "act" :: t :: rest =>
     match parseAct rest with
     | some a =>
-      let w' := applyAct floatCls d.w (natD t) a
+      let w' := applyAct floatCls (obsOf d.obs) d.w (natD t) a
       ({ d with w := w' }, showStore (w'.st a.lock))
     | none => (d, "bad-op")
   | ["final", nt, ns] =>
     let rets := (List.range (natD nt)).map fun t => showRets (d.w.locs t)
     let sts := (List.range (natD ns)).map fun j => showStore (d.w.st j)
     (d, s!"{joinSp rets} | {" ; ".intercalate sts}")
+  | ["obs", j, kind, nm] => ({ d with obs := (natD j, kind, nm) :: d.obs.filter (fun e => e.1 != natD j) }, "ok")
   | "thread" :: _ => (d, "ok")      -- program text: information for the implementation side only
   | "sched" :: _ => (d, "ok")
   | "sched2" :: _ => (d, "ok")
